@@ -115,6 +115,9 @@ class _Signal(Exception):
     pass
 
 
+_NO_RECV = object()  # inline(): a plain function, no receiver parameter
+
+
 # ------------------------------------------------------------------ state
 class St:
     __slots__ = (
@@ -237,6 +240,7 @@ class Flow:
     ):
         self.repo = repo
         self.construct = construct
+        self._pure_inline_failed: dict[str, bool] = {}
         self.self_attrs = self_attrs or {}
         self.modconst = modconst or {}
         self.unroll = unroll
@@ -685,7 +689,7 @@ class Flow:
                 return self.with_args(st, node, lambda s, a, kw: [(s, Opq(ast.unparse(node)[:40]))])
             if name in ("ValueError", "IndexError", "RuntimeError", "KeyError", "TypeError", "AssertionError", "Exception"):
                 return [(st, Exc(name))]
-            return self.with_args(st, node, lambda s, a, kw: self.unknown_call(s, name, a, node))
+            return self.with_args(st, node, lambda s, a, kw: self.unknown_call(s, name, a, node, kw))
         # --- attribute / value calls
         out = []
         for s, f in self.ev(st, fn):
@@ -717,7 +721,14 @@ class Flow:
             out.extend(k(s, vals, kws))
         return out
 
-    def unknown_call(self, st: St, name: str, args: list, node: ast.Call) -> list[tuple[St, object]]:
+    def unknown_call(self, st: St, name: str, args: list, node: ast.Call, kw: dict | None = None) -> list[tuple[St, object]]:
+        touches = any(isinstance(a, (PathRef, LRef)) for a in args)
+        if touches and not self.template:
+            # a module-level helper of the file under analysis that is handed the state or a pair list: inlined
+            rel = self.construct.split("::")[0]
+            fn = self.repo.mod(rel).functions().get(name) if rel in self.repo.py_files else None
+            if fn is not None:
+                return self.inline(st, fn, _NO_RECV, args, kw or {}, name, self.repo.mod(rel).constants())
         if any(isinstance(a, PathRef) and a.path == "state" for a in args):
             raise self.unsupported(f"call {name}(...) receives the parser state")
         return [(st, Opq(ast.unparse(node)[:40]))]
@@ -1045,6 +1056,15 @@ class Flow:
             return [(st, Opq(ast.unparse(node)[:40]))]
         touches_state = any(isinstance(a, (PathRef, LRef)) for a in args)
         if not touches_state:
+            # a pure helper over the node's own (concrete) attributes: evaluated when the model can, opaque otherwise
+            if name not in ("children", "with_children", "tag_str", "__str__") and not self._pure_inline_failed.get(name):
+                try:
+                    res = self.inline(st, r[2], PathRef("self"), args, kw, f"self.{name}", self.repo.mod(r[0]).constants())
+                    if all(not isinstance(v, (Opq, Exc)) for _, v in res):
+                        return res
+                except AnalysisError:
+                    pass
+                self._pure_inline_failed[name] = True
             return [(st, self.named_opq(f"self.{name}()"))]
         return self.inline(st, r[2], PathRef("self"), args, kw, f"self.{name}", self.repo.mod(r[0]).constants())
 
@@ -1056,8 +1076,11 @@ class Flow:
         names = [a.arg for a in fn.args.args]
         defaults = fn.args.defaults
         env: dict[str, object] = {}
-        env[names[0]] = recv
-        pos = names[1:]
+        if recv is _NO_RECV:
+            pos = names
+        else:
+            env[names[0]] = recv
+            pos = names[1:]
         for i, n in enumerate(pos):
             if i < len(args):
                 env[n] = args[i]
@@ -1243,6 +1266,11 @@ class Flow:
             return
         if isinstance(s, (ast.FunctionDef, ast.Import, ast.ImportFrom, ast.Global, ast.Nonlocal)):
             yield st, None
+            return
+        if isinstance(s, ast.Match):
+            from .desugar import desugar_match  # noqa: PLC0415
+
+            yield from self.block(st, desugar_match(s, self.construct))
             return
         raise self.unsupported(f"statement {type(s).__name__}: {ast.unparse(s)[:60]}")
 
